@@ -147,6 +147,46 @@ char* strput_int (char *x, char *limit, int num) {
 }
 
 
+/*
+ * Objects that are already in the object table while a master apply that
+ * decides about them (valid_object, creator_file) is still running. If the
+ * apply raises an error, unwinding the value stack runs
+ * discard_pending_object(), so that no object stays behind without a uid.
+ */
+#define MAX_PENDING_OBJECTS 64
+static object_t *pending_objects[MAX_PENDING_OBJECTS];
+static int num_pending_objects = 0;
+
+static void discard_pending_object (void) {
+  object_t *ob;
+
+  if (num_pending_objects <= 0)
+    return;
+  ob = pending_objects[--num_pending_objects];
+  if (ob->flags & O_DESTRUCTED)
+    return;
+  if (!ob->uid)
+    {
+      ob->uid = add_uid ("NONAME");
+      ob->euid = NULL;
+    }
+  destruct_object (ob);
+}
+
+static int push_pending_object (object_t * ob) {
+  if (num_pending_objects >= MAX_PENDING_OBJECTS)
+    return 0;
+  pending_objects[num_pending_objects++] = ob;
+  (++sp)->type = T_ERROR_HANDLER;
+  sp->u.error_handler = discard_pending_object;
+  return 1;
+}
+
+static void pop_pending_object (void) {
+  num_pending_objects--;
+  sp--;
+}
+
 /**
  *  @brief Give the correct uid and euid to a created object.
  * 
@@ -155,7 +195,7 @@ char* strput_int (char *x, char *limit, int num) {
 static int give_uid_to_object (object_t * ob) {
   svalue_t *ret;
   char *creator_name = NULL;
-  error_context_t econ;
+  int pushed;
 
   /* before master object is loaded */
   if (get_machine_state() < MS_MUDLIB_LIMBO)
@@ -166,28 +206,11 @@ static int give_uid_to_object (object_t * ob) {
     }
 
   /* ask master object who the creator of this object is */
-  if (!save_context (&econ))
-    {
-      ob->uid = add_uid ("NONAME");
-      destruct_object (ob);
-      error ("*Can't catch too deep recursion error.");
-    }
-  if (setjmp (econ.context))
-    {
-      /*
-       * Error in master::creator_file(): nobody has decided who owns the
-       * object, so it must not stay in the object table without a uid.
-       */
-      restore_context (&econ);
-      pop_context (&econ);
-      ob->uid = add_uid ("NONAME");
-      ob->euid = NULL;
-      destruct_object (ob);
-      error ("*Error in master::%s() when creating '/%s'.", APPLY_CREATOR_FILE, ob->name);
-    }
+  pushed = push_pending_object (ob);
   push_malloced_string (add_slash (ob->name));
   ret = apply_master_ob (APPLY_CREATOR_FILE, 1);
-  pop_context (&econ);
+  if (pushed)
+    pop_pending_object ();
 
   if (ret == (svalue_t *) - 1)
     {
@@ -392,6 +415,7 @@ object_t* load_object (const char *mudlib_filename, const char *pre_text) {
   program_t *prog;
   object_t *ob, *save_command_giver = command_giver;
   svalue_t *mret;
+  int pushed;
   struct stat c_st;
   char real_name[PATH_MAX], name[PATH_MAX - 2];
 
@@ -567,8 +591,11 @@ object_t* load_object (const char *mudlib_filename, const char *pre_text) {
   if (get_machine_state() >= MS_MUDLIB_LIMBO)
     {
       opt_trace (TT_COMPILE|3, "calling master apply: valid_object() for: \"%s\"", name);
+      pushed = push_pending_object (ob);
       push_object (ob);
       mret = apply_master_ob (APPLY_VALID_OBJECT, 1);
+      if (pushed)
+        pop_pending_object ();
       if (mret && !MASTER_APPROVED (mret))
         {
           destruct_object (ob);
